@@ -42,7 +42,15 @@ def applyResize (s : ISet) : ISet :=
 
 def showIdx (x : RIdx) : String :=
   "(" ++ toString x.loc.g ++ "," ++ toString x.ra ++ "," ++ toString x.loc.l ++ "," ++ toString x.loc.a ++ ")"
-def showIdxs (l : List RIdx) : String := "[" ++ ",".intercalate (l.map showIdx) ++ "]"
+/-- canonical print order (as in the harness): runs of equal global index are sorted by (ra, l, a) -/
+def idxLt (x y : RIdx) : Bool :=
+  x.ra < y.ra || (x.ra == y.ra && (x.loc.l < y.loc.l || (x.loc.l == y.loc.l && x.loc.a < y.loc.a)))
+def insRun (x : RIdx) : List RIdx → List RIdx
+  | [] => [x]
+  | y :: ys => if y.loc.g == x.loc.g && idxLt y x then y :: insRun x ys else x :: y :: ys
+/-- insertion from the right keeps runs of equal global index together and sorts inside them -/
+def canon (l : List RIdx) : List RIdx := l.foldr insRun []
+def showIdxs (l : List RIdx) : String := "[" ++ ",".intercalate ((canon l).map showIdx) ++ "]"
 def showMap (m : RMap) : String :=
   "b" ++ " ".intercalate (m.map fun e => toString e.1 ++ ":" ++ showIdxs e.2.1 ++ "|" ++ showIdxs e.2.2)
 
